@@ -64,39 +64,39 @@ var escapeTable = map[string]string{
 	"bytes.NewBytes[[]byte]": "see bytes.NewBytes",
 	"bytes.NewBytes[string]": "see bytes.NewBytes",
 	"bytes.NewBytes[github.com/jsightapi/jsight-schema-core/bytes.Bytes]": "see bytes.NewBytes",
-	"bytes.Int":  "assertion after a type switch over {Index, uint, int}; every call site passes one of these static types (rule C02.intarg)",
-	"errs.f":     "both panics fire only on a code without format or an arity mismatch; excluded for every call site by rule C16.fmt",
-	"errs.f#2":   "see errs.f",
-	"(json.Number).not":     "argument is the result of cmpAbs/cmpInt/cmpFra, which return only -1, 0, 1 (rule C13.pred decodes those tables)",
-	"(json.Number).ToFloat": "strconv.ParseFloat of String() of a Number that passed the number grammar; not reachable from schema processing",
-	"json.NewJsonType":      "exported helper that panics by contract on an unknown name; callers inside the module run under the loader's recover",
-	"(json.GuessData).LiteralJsonType": "reached from the enum scanner only through handleLiteralEnd → GuessSchemaType? no: reached via json.Guess on lexemes the scanner already classified as literals; panics with a positioned error value (error type), converted by callers",
-	"(*kit.JSchemaError).preparation": "file is set by NewJSchemaError, the only constructor; a zero JSchemaError is never returned by the module",
+	"bytes.Int":                                 "assertion after a type switch over {Index, uint, int}; every call site passes one of these static types (rule C02.intarg)",
+	"errs.f":                                    "both panics fire only on a code without format or an arity mismatch; excluded for every call site by rule C16.fmt",
+	"errs.f#2":                                  "see errs.f",
+	"(json.Number).not":                         "argument is the result of cmpAbs/cmpInt/cmpFra, which return only -1, 0, 1 (rule C13.pred decodes those tables)",
+	"(json.Number).ToFloat":                     "strconv.ParseFloat of String() of a Number that passed the number grammar; not reachable from schema processing",
+	"json.NewJsonType":                          "exported helper that panics by contract on an unknown name; callers inside the module run under the loader's recover",
+	"(json.GuessData).LiteralJsonType":          "reached from the enum scanner only through handleLiteralEnd → GuessSchemaType? no: reached via json.Guess on lexemes the scanner already classified as literals; panics with a positioned error value (error type), converted by callers",
+	"(*kit.JSchemaError).preparation":           "file is set by NewJSchemaError, the only constructor; a zero JSchemaError is never returned by the module",
 	"(*notations/jschema.JSchema).BuildASTNode": "exported for internal use by load(), which runs under the recover of LoadOnce; panics with the error value returned by ASTNode()",
 	"notations/jschema/ischema.collectASTRules": "err is the result of Constraints.Each whose callback always returns nil",
-	"(notations/jschema/ischema/constraint.enumItemValue).String": "encoding/json.Marshal of a Go string cannot fail",
-	"openapi/internal.ToJSONString":                                "encoding/json.Marshal of a Go string cannot fail",
-	"(notations/jschema/ischema/constraint.AdditionalProperties).String": "default branch of a switch over all four declared AdditionalPropertiesMode constants",
-	"(*internal/ds.Stack[lexeme.LexEvent]).Peek[lexeme.LexEvent]":       "scanner stack discipline (every Peek/Pop follows a Push on the same path); not decided statically here",
-	"(*internal/ds.Stack[lexeme.LexEvent]).Get[lexeme.LexEvent]":        "only called as Get(length-2) under length >= 2 checks in stateEndValue",
-	"(*internal/ds.Stack[rules/enum.stepFunc]).Peek[rules/enum.stepFunc]": "returnToStep push/pop discipline of the enum scanner; not decided statically here",
+	"(notations/jschema/ischema/constraint.enumItemValue).String":             "encoding/json.Marshal of a Go string cannot fail",
+	"openapi/internal.ToJSONString":                                           "encoding/json.Marshal of a Go string cannot fail",
+	"(notations/jschema/ischema/constraint.AdditionalProperties).String":      "default branch of a switch over all four declared AdditionalPropertiesMode constants",
+	"(*internal/ds.Stack[lexeme.LexEvent]).Peek[lexeme.LexEvent]":             "scanner stack discipline (every Peek/Pop follows a Push on the same path); not decided statically here",
+	"(*internal/ds.Stack[lexeme.LexEvent]).Get[lexeme.LexEvent]":              "only called as Get(length-2) under length >= 2 checks in stateEndValue",
+	"(*internal/ds.Stack[rules/enum.stepFunc]).Peek[rules/enum.stepFunc]":     "returnToStep push/pop discipline of the enum scanner; not decided statically here",
 	"(*internal/ds.Stack[formats/json.stepFunc]).Peek[formats/json.stepFunc]": "returnToStep push/pop discipline; not decided statically here",
 	// OpenAPI conversion: `default: panic(ErrRuntimeFailure)` after switches over the token/schema type of AST nodes of an accepted schema
-	"openapi.NewSchemaObject":                         "type switch over the two Schema implementations of the module (JSchema, RSchema)",
-	"(openapi.dereference).schema":                    "type switch over the two Schema implementations of the module",
-	"(openapi.dereference).userType":                  "user type missing: Check() of an accepted schema already proved every referenced type exists",
-	"(*openapi.dereference).jSchema":                  "TokenType of an AST node of an accepted schema is one of the seven TokenType constants, all handled",
-	"(openapi.ObjectInfo).allOf":                      "allOf rule value is a reference or an array of references (loader rejects anything else)",
-	"(openapi.ObjectInfo).dereferenceUserTypeProperties": "allOf sources are objects (CompileAllOf rejects non-object sources with code 704)",
-	"(openapi.SchemaInfo).Type":                       "TokenType of an AST node of an accepted schema is one of the seven constants, all handled",
-	"(*openapi/internal/jsoac.AllOf).append":          "allOf rule value is a reference or an array of references",
-	"openapi/internal.RuleToASTNode":                  "items of an `or` rule are strings, references or rule-set objects (loader rejects anything else)",
-	"openapi/internal/jsoac.newBasicAdditionalProperties": "additionalProperties value is a boolean or a string (loader rejects anything else)",
+	"openapi.NewSchemaObject":                                   "type switch over the two Schema implementations of the module (JSchema, RSchema)",
+	"(openapi.dereference).schema":                              "type switch over the two Schema implementations of the module",
+	"(openapi.dereference).userType":                            "user type missing: Check() of an accepted schema already proved every referenced type exists",
+	"(*openapi.dereference).jSchema":                            "TokenType of an AST node of an accepted schema is one of the seven TokenType constants, all handled",
+	"(openapi.ObjectInfo).allOf":                                "allOf rule value is a reference or an array of references (loader rejects anything else)",
+	"(openapi.ObjectInfo).dereferenceUserTypeProperties":        "allOf sources are objects (CompileAllOf rejects non-object sources with code 704)",
+	"(openapi.SchemaInfo).Type":                                 "TokenType of an AST node of an accepted schema is one of the seven constants, all handled",
+	"(*openapi/internal/jsoac.AllOf).append":                    "allOf rule value is a reference or an array of references",
+	"openapi/internal.RuleToASTNode":                            "items of an `or` rule are strings, references or rule-set objects (loader rejects anything else)",
+	"openapi/internal/jsoac.newBasicAdditionalProperties":       "additionalProperties value is a boolean or a string (loader rejects anything else)",
 	"(openapi/internal/jsoac.AdditionalProperties).MarshalJSON": "default branch of a switch over all declared additionalPropertiesMode constants",
-	"openapi/internal/jsoac.newNode":                  "TokenType of an AST node is one of the seven constants, all handled",
-	"openapi/internal/jsoac.oadTypeFromASTNode":       "called for primitive/array/object nodes only (newNode dispatch), never for references",
-	"openapi/internal/rsoac.getASTNode":               "RSchema.GetAST fails only for an invalid regex schema; conversion is defined for accepted schemas",
-	"openapi/internal/jsoac.makeAdditionalAnyJSONObjects": "see known finding on oadTypeFromSchemaType: same domain question for `or` items inside additionalProperties (enum/mixed/comment are rejected earlier for or-items)",
+	"openapi/internal/jsoac.newNode":                            "TokenType of an AST node is one of the seven constants, all handled",
+	"openapi/internal/jsoac.oadTypeFromASTNode":                 "called for primitive/array/object nodes only (newNode dispatch), never for references",
+	"openapi/internal/rsoac.getASTNode":                         "RSchema.GetAST fails only for an invalid regex schema; conversion is defined for accepted schemas",
+	"openapi/internal/jsoac.makeAdditionalAnyJSONObjects":       "see known finding on oadTypeFromSchemaType: same domain question for `or` items inside additionalProperties (enum/mixed/comment are rejected earlier for or-items)",
 }
 
 func c02escape(c *core.Ctx) {
